@@ -14,8 +14,20 @@ exactly: a matcher-restricted `*`/`**` that has an earlier `*`/`**` in the same
 path element, and literals that are empty or not valid UTF-8.
 Soundness, uniqueness, the hidden-file rule, "no wildcard consumes `/`" and the
 no-match rule hold for every pattern.
+
+Round 2: the theorems above speak about runs that return (`Res.ok`); the section
+"Every run returns" shows that this is every run: `matchElement` is total on
+slash-free patterns, and `glob` never reports `FUEL` once the fuel exceeds
+pattern length × depth for a file system whose real directories are well-founded
+(`FSRank`), in particular with the driver's `fuelFor` on every well-formed
+`Tree`.  `glob.Parse` is total and printing its segments gives the pattern back
+(`C23_parse_*`).  `C23_lit_star_lit_needs_room` makes explicit why a
+"has prefix and has suffix" shortcut for `lit*lit` is wrong.
 -/
 import ElvProofs.C23.Top
+import ElvProofs.C23.Overlap
+import ElvProofs.C23.TreeRank
+import ElvProofs.C23.Parse
 open Go C23
 
 /-- What `doGlob` must yield for `p`: the path is expanded by the pattern, not
@@ -42,6 +54,8 @@ def C23_fsX : FS where
   readDir d := if d = [] then some [(C23_xaxb, false)] else none
 
 def C23_star : Seg := .wild ⟨.star, false, []⟩
+/-- `**` -/
+def C23_star2 : Seg := .wild ⟨.starstar, false, []⟩
 /-- `*[set:b]` -/
 def C23_starB : Seg := .wild ⟨.star, false, [fun r => r == 0x62]⟩
 
@@ -226,3 +240,224 @@ theorem C23_counterexample : ¬ C23_full := by
     simp [C23_gpBad, C23_star, C23_starB] at hd
     rw [hd]; simp) hrun).2 C23_xaxb
   exact absurd (this.2 C23_xaxb_selected) (by simp)
+
+/-! ### Every run returns (round 2) -/
+
+/-- `matchElement` never panics and never runs out of fuel on a slash-free
+pattern (what `glob` hands it): the chunks given to `matchFixedLength` hold only
+literals and `?`, and the star loop's fuel `len(name)` covers one byte per round. -/
+theorem C23_matchElement_total (segs : List Seg) (hns : NoSlash segs) (name : Bytes) :
+    ∃ b, matchElement segs name = .ok b :=
+  matchElement_total hns name
+
+example : NoSlash C23_gpBad.segs := by
+  intro s hs
+  simp [C23_gpBad, C23_star, C23_starB] at hs
+  rcases hs with rfl | rfl | rfl <;> rfl
+
+/-- **Fuel sufficiency.**  If the directory paths of `fs` carry a rank bounded by
+`D` that decreases from a directory to every entry listed as a real directory
+(`FSRank`: no cycles through real directories; symbolic links are not followed
+by wildcard components), then `Pattern.Glob` returns with any fuel above
+`(len(segs)+1) * (D+1)` — the measure is pattern length × depth: every recursive
+call of `glob` either consumed a `/` of the pattern or keeps the pattern (`**`)
+and descends into a listed real directory. -/
+theorem C23_glob_fuel_sufficient (fs : FS) (D : Nat) (R : FSRank fs D) (segs : List Seg) (fuel : Nat)
+    (hf : (segs.length + 1) * (D + 1) < fuel) : ∃ outs, patternGlob fs fuel segs = .ok outs :=
+  patternGlob_total fs R fuel segs hf
+
+/-- the one-directory tree of the witnesses has a rank (depth 1) -/
+def C23_fsX_rank : FSRank C23_fsX 1 where
+  rk p := if p = [] then 1 else 0
+  le := by intro p; split <;> omega
+  desc := by
+    intro dir es name _ h hm
+    simp only [C23_fsX] at h
+    split at h
+    · simp at h; subst h
+      simp at hm
+    · cases h
+
+example : ∃ outs, patternGlob C23_fsX 9 C23_gpBad.segs = .ok outs :=
+  C23_glob_fuel_sufficient C23_fsX 1 C23_fsX_rank _ 9 (by decide)
+
+/-- With enough fuel `doGlob` ends in a list or in the no-match exception, never
+in `FUEL` or a panic. -/
+theorem C23_doGlob_total (fs : FS) (D : Nat) (R : FSRank fs D) (gp : GlobPattern) (fuel : Nat)
+    (hf : (gp.segs.length + 1) * (D + 1) < fuel) :
+    (∃ vs, doGlob fs fuel gp = .ok vs) ∨ doGlob fs fuel gp = .exc "wildcard has no match" := by
+  obtain ⟨outs, ho⟩ := C23_glob_fuel_sufficient fs D R gp.segs fuel hf
+  rw [C23_nomatch fs fuel gp outs ho]
+  simp only
+  split
+  · exact Or.inr rfl
+  · exact Or.inl ⟨_, rfl⟩
+
+/-- **Main theorem without the "run returned" hypothesis.**  For `GreedyOK`
+patterns on a ranked file system, with enough fuel, the expansion is decided:
+either the list of exactly the selected paths (each once), or the exception, and
+then `nomatch-ok` is absent and no path is selected. -/
+theorem C23_expansion_decided_partial (fs : FS) (hfs : FSNames fs) (D : Nat) (R : FSRank fs D)
+    (gp : GlobPattern) (hg : GreedyOK gp.segs) (fuel : Nat)
+    (hf : (gp.segs.length + 1) * (D + 1) < fuel) :
+    (∃ vs, doGlob fs fuel gp = .ok vs ∧ vs.Nodup ∧ ∀ p, p ∈ vs ↔ C23_Selected fs gp p) ∨
+    (doGlob fs fuel gp = .exc "wildcard has no match" ∧ gp.noMatchOK = false ∧
+      ∀ p, ¬ C23_Selected fs gp p) := by
+  obtain ⟨outs, ho⟩ := C23_glob_fuel_sufficient fs D R gp.segs fuel hf
+  have hrun := C23_nomatch fs fuel gp outs ho
+  simp only at hrun
+  split at hrun
+  · next hc =>
+    refine Or.inr ⟨hrun, ?_, ?_⟩
+    · simp only [Bool.and_eq_true, Bool.not_eq_true'] at hc; exact hc.2
+    · -- the same pattern with nomatch-ok yields the empty list, which is exact
+      have hrun' := C23_nomatch fs fuel ⟨gp.segs, true, gp.buts, gp.type⟩ outs ho
+      simp only [Bool.not_true, Bool.and_false, Bool.false_eq_true, if_false] at hrun'
+      have hex := (C23_expansion_exact_partial fs hfs ⟨gp.segs, true, gp.buts, gp.type⟩ hg fuel _ hrun').2
+      simp only [Bool.and_eq_true, List.isEmpty_iff] at hc
+      intro p hp
+      have : p ∈ ([] : List Bytes) := by
+        rw [← hc.1]
+        exact (hex p).2 hp
+      cases this
+  · exact Or.inl ⟨_, hrun, C23_expansion_exact_partial fs hfs gp hg fuel _ hrun⟩
+
+example : doGlob C23_fsX 9 C23_gpGood = .ok [C23_xaxb] := by decide
+
+/-- The fuel only decides between a result and `FUEL`: a run that returned
+returns the same list under any larger fuel (so the results the theorems speak
+about do not depend on the fuel the driver picks). -/
+theorem C23_more_fuel_same_result (fs : FS) (f1 f2 : Nat) (gp : GlobPattern) (vs : List Bytes)
+    (hle : f1 ≤ f2) (h : doGlob fs f1 gp = .ok vs) : doGlob fs f2 gp = .ok vs := by
+  obtain ⟨outs, ho, _⟩ := C23_doGlob_mem fs f1 gp vs h
+  have ho2 := patternGlob_mono fs f1 f2 gp.segs outs hle ho
+  rw [C23_nomatch fs f2 gp outs ho2, ← C23_nomatch fs f1 gp outs ho]
+  exact h
+
+example : doGlob C23_fsX 3 C23_gpGood = .ok [C23_xaxb] ∧ (3 : Nat) ≤ 100 := by decide
+
+/-- a chain `r/a/a` with a symbolic link `r/a/a/up -> ../..` back to `r` -/
+def C23_treeUp : Tree where
+  entries := [([[0x72]], .dir), ([[0x72], [0x61]], .dir), ([[0x72], [0x61], [0x61]], .dir),
+    ([[0x72], [0x61], [0x61], [0x75, 0x70]], .symlink [0x2E, 0x2E, 0x2F, 0x2E, 0x2E])]
+  absRoot := [[0x74]]
+  cwd := [[0x72]]
+
+/-- **The driver never prints `FUEL`.**  On every well-formed tree (names are
+real names, no location listed twice — checked by the driver for every op) the
+driver's fuel `fuelFor t segs = (len(segs)+1) * (depthBound t + 2) + 1` suffices:
+the tree model has the rank `depthBound + 1 - |resolved location|`, because an
+entry listed with `IsDir() = true` is a `dir` entry one component below the
+listed directory and `dir ++ name ++ "/"` resolves to it. -/
+theorem C23_driver_never_out_of_fuel (t : Tree) (hwf : t.wf = true) (segs : List Seg) :
+    ∃ outs, patternGlob t.toFS (fuelFor t segs) segs = .ok outs :=
+  tree_patternGlob_total t hwf segs
+
+example : C23_treeUp.wf = true := by decide
+
+/-- a chain of `d` directories `r/a/…/a` whose last one holds `up -> ../…/..` (back to `r`) -/
+def C23_chainUp (d : Nat) : Tree where
+  entries := ((List.range (d + 1)).map fun i => (([0x72] : Bytes) :: List.replicate i [0x61], Node.dir)) ++
+    [(([0x72] : Bytes) :: List.replicate d [0x61] ++ [[0x75, 0x70]],
+      Node.symlink (List.intercalate [0x2F] (List.replicate d [0x2E, 0x2E])))]
+  absRoot := [[0x74]]
+  cwd := [[0x72]]
+
+/-- `**/up/` k times, then `**` -/
+def C23_upPat (k : Nat) : List Seg :=
+  (List.replicate k [C23_star2, .slash, .lit [0x75, 0x70], .slash]).flatten ++ [C23_star2]
+
+/-- Why the fuel must be a PRODUCT: every `**/up/` walks down the whole chain
+again, so the recursion depth is about `k * d`.  The round-1 driver used the sum
+`entries + len(segs) + 8` and would have printed `FUEL` here (never generated:
+trees were shallow); corpus section 7 replays this on the real code. -/
+theorem C23_additive_fuel_insufficient :
+    patternGlob (C23_chainUp 8).toFS ((C23_chainUp 8).entries.length + (C23_upPat 3).length + 8)
+      (C23_upPat 3) = .exc "FUEL" := by decide +kernel
+
+example : (C23_chainUp 8).wf = true := by decide +kernel
+
+/-! ### `glob.Parse` (round 2) -/
+
+/-- `glob.Parse` is total: the model's fuel `len(s)+1` always suffices, the
+literal loop always consumes its first rune, nothing panics. -/
+theorem C23_parse_total (s : Bytes) : ∃ segs, parse s = .ok segs := parse_total s
+
+/-- Printing the parsed segments gives the pattern string back, up to what Parse
+merges: every run of `/` is one `Slash`, every run of two or more `*` one `**`.
+Needs valid UTF-8 (an invalid byte becomes U+FFFD in a literal) and no backslash
+(escapes are dropped). -/
+theorem C23_parse_print (s : Bytes) (segs : List Seg) (hv : validUtf8 s = true)
+    (hb : (0x5C : UInt8) ∉ s) (h : parse s = .ok segs) : printSegs segs = squeeze s :=
+  parse_print hv hb h
+
+/-- For a string without `//` and `***` the printed segments are the string. -/
+theorem C23_parse_print_normal (s : Bytes) (segs : List Seg) (hv : validUtf8 s = true)
+    (hb : (0x5C : UInt8) ∉ s) (hn : normalRuns s = true) (h : parse s = .ok segs) :
+    printSegs segs = s :=
+  parse_print_normal hv hb hn h
+
+/-- `Parse` never produces matchers or match-hidden. -/
+theorem C23_parse_plain_wildcards (s : Bytes) (segs : List Seg) (h : parse s = .ok segs) (w : Wild)
+    (hw : Seg.wild w ∈ segs) : w.hidden = false ∧ w.matchers = [] :=
+  parse_plain h _ hw
+
+/-- parse, then print (segments hold functions, so results are compared printed) -/
+def C23_printParsed (s : Bytes) : Option Bytes :=
+  match parse s with
+  | .ok segs => some (printSegs segs)
+  | _ => none
+
+/-- `a***//?b` -/
+def C23_patStr : Bytes := [0x61, 0x2A, 0x2A, 0x2A, 0x2F, 0x2F, 0x3F, 0x62]
+
+example : C23_printParsed C23_patStr = some [0x61, 0x2A, 0x2A, 0x2F, 0x3F, 0x62] := by
+  decide +kernel
+example : squeeze C23_patStr = [0x61, 0x2A, 0x2A, 0x2F, 0x3F, 0x62] := by decide
+example : validUtf8 C23_patStr = true ∧ (0x5C : UInt8) ∉ C23_patStr := by decide +kernel
+/-- `a**/?b` is normal -/
+example : normalRuns [0x61, 0x2A, 0x2A, 0x2F, 0x3F, 0x62] = true := by decide
+/-- the hypotheses are needed: `\*` prints as `*`, the byte `ff` as U+FFFD -/
+example : C23_printParsed [0x5C, 0x2A] = some [0x2A] := by decide +kernel
+example : C23_printParsed [0xFF] = some [0xEF, 0xBF, 0xBD] := by decide +kernel
+
+/-! ### `lit * lit` needs room for both literals (round 2) -/
+
+/-- A name matched by `lit₁ * lit₂` (any `*`/`**`/`?` in the middle) starts with
+`lit₁`, ends with `lit₂`, and is at least `|lit₁| + |lit₂|` long: the literals
+occupy disjoint bytes.  "Starts with `lit₁` and ends with `lit₂`" alone is NOT
+sufficient — `a` for `a*a`, `aba` for `ab*ba` (seeded change
+C23-literal-star-literal-overlap; corpus section 6). -/
+theorem C23_lit_star_lit_needs_room (l1 l2 : Bytes) (w : Wild) (name : Bytes)
+    (h : Matches [.lit l1, .wild w, .lit l2] name) :
+    l1.length + l2.length ≤ name.length ∧ (∃ t, name = l1 ++ t) ∧ (∃ t, name = t ++ l2) := by
+  refine ⟨?_, ?_, ?_⟩
+  · have := matches_minLen h
+    simp only [minLen] at this
+    omega
+  · obtain ⟨t, ht, _⟩ := matches_lit_prefix h
+    exact ⟨t, ht⟩
+  · exact matches_lit_suffix (segs := [.lit l1, .wild w]) h
+
+/-- the same for what the code accepts -/
+theorem C23_matchElement_lit_star_lit (l1 l2 : Bytes) (w : Wild) (name : Bytes)
+    (hs : slashByte ∉ name) (h : matchElement [.lit l1, .wild w, .lit l2] name = .ok true) :
+    l1.length + l2.length ≤ name.length :=
+  (C23_lit_star_lit_needs_room l1 l2 w name (C23_matchElement_sound _ _ hs h).2).1
+
+/-- `a*a` -/
+def C23_aStarA : List Seg := [.lit [0x61], C23_star, .lit [0x61]]
+/-- `ab*ba` -/
+def C23_abStarBa : List Seg := [.lit [0x61, 0x62], C23_star, .lit [0x62, 0x61]]
+
+/-- `a` starts with `a` and ends with `a`, but `a*a` does not match it … -/
+example : ¬ Matches C23_aStarA [0x61] := fun h => by
+  have := (C23_lit_star_lit_needs_room _ _ _ _ h).1
+  simp at this
+/-- … nor does `ab*ba` match `aba`; the code agrees, and `aa`, `abba` do match. -/
+example : ¬ Matches C23_abStarBa [0x61, 0x62, 0x61] := fun h => by
+  have := (C23_lit_star_lit_needs_room _ _ _ _ h).1
+  simp at this
+example : matchElement C23_aStarA [0x61] = .ok false ∧ matchElement C23_aStarA [0x61, 0x61] = .ok true ∧
+    matchElement C23_abStarBa [0x61, 0x62, 0x61] = .ok false ∧
+    matchElement C23_abStarBa [0x61, 0x62, 0x62, 0x61] = .ok true := by decide
